@@ -142,15 +142,14 @@ Qed.
 (* ---------------------------------------------------------------- the store machine *)
 Section Refinement.
 Variable C : Type.
-Variable cempty : C -> bool.
 Variable csize : C -> N.
 
 Notation sstate := (sstate C).
-Notation put := (sput C cempty csize).
+Notation put := (sput C csize).
 Notation del := (sdel C).
 Notation get := (sget C csize).
 Notation ids := (sids C).
-Notation tick := (stick C cempty csize).
+Notation tick := (stick C csize).
 Notation aget := (aget C).
 Notation aset := (aset C).
 Notation adel := (adel C).
@@ -175,12 +174,10 @@ Fixpoint view (s : sstate) (id : N) : res C :=
                     end
   end.
 
-(* contents a stack stores faithfully: every codec on the way down decodes what it encoded and a
-   SQL base is not handed zero bytes *)
+(* contents a stack stores faithfully: every codec on the way down decodes what it encoded *)
 Fixpoint accepts (s : sstate) (c : C) : Prop :=
   match s with
-  | SBase BFs _ => True
-  | SBase BSql _ => cempty c = false
+  | SBase _ _ => True
   | SCodec k s' => dec k (enc k c) = Some c /\ accepts s' (enc k c)
   | SCache _ _ _ s' => accepts s' c
   | SOutbox _ s' => accepts s' c
@@ -269,7 +266,7 @@ Arguments PartStack.last_entry : simpl never.
 Lemma accepts_put s : forall i c x, accepts (put s i c) x <-> accepts s x.
 Proof.
   induction s as [b m|k s IH|mx cm h s IH|q s IH]; intros i c x; cbn.
-  - destruct b; cbn; [tauto|]. destruct (cempty c); cbn; tauto.
+  - destruct b; cbn; tauto.
   - rewrite IH. tauto.
   - destruct (csize c <=? mx); cbn; apply IH.
   - tauto.
@@ -293,7 +290,7 @@ Proof.
   - destruct (last_entry i q) as [[? ?|?]|]; cbn; try tauto.
     specialize (IH i x). destruct (get s i) as [s1 r]. cbn in *. exact IH.
 Qed.
-Lemma accepts_apply e s x : accepts (apply_entry C cempty csize e s) x <-> accepts s x.
+Lemma accepts_apply e s x : accepts (apply_entry C csize e s) x <-> accepts s x.
 Proof. destruct e; cbn; [apply accepts_put | apply accepts_del]. Qed.
 Lemma accepts_tick s : forall x, accepts (tick s) x <-> accepts s x.
 Proof.
@@ -303,7 +300,7 @@ Proof.
   - apply IH.
   - destruct q; cbn; [apply IH | apply accepts_apply].
 Qed.
-Lemma accepts_iter n : forall s x, accepts (iter_tick C cempty csize n s) x <-> accepts s x.
+Lemma accepts_iter n : forall s x, accepts (iter_tick C csize n s) x <-> accepts s x.
 Proof. induction n; intros; cbn; [tauto|]. rewrite IHn. apply accepts_tick. Qed.
 
 (* --- no decoding error is ever visible in a state satisfying the invariant --- *)
@@ -325,7 +322,7 @@ Proof.
   - destruct b; cbn in *.
     + split; [exact I|]. intros i. unfold lookup. rewrite aget_aset.
       rewrite (N.eqb_sym id i). destruct (i =? id); reflexivity.
-    + rewrite HA. split; [exact I|]. intros i. cbn. unfold lookup. rewrite aget_aset, aget_adel.
+    + split; [exact I|]. intros i. cbn. unfold lookup. rewrite aget_aset, aget_adel.
       rewrite (N.eqb_sym id i). destruct (i =? id); reflexivity.
   - cbn in HI, HA. destruct HI as [HI Hd]. destruct HA as [Hk HA].
     destruct (IH id (enc k c) HI HA) as [HI' Hv]. cbn. split.
@@ -416,8 +413,8 @@ Qed.
 
 (* --- an outbox worker step never changes what a reader sees --- *)
 Lemma apply_correct e s : Inv s -> (forall id c, e = EPut id c -> accepts s c) ->
-  Inv (apply_entry C cempty csize e s) /\
-  forall i, view (apply_entry C cempty csize e s) i =
+  Inv (apply_entry C csize e s) /\
+  forall i, view (apply_entry C csize e s) i =
             if i =? entry_id e then (match e with EPut _ c => ROk c | EDel _ => RNF end) else view s i.
 Proof.
   intros HI HA. destruct e as [id c|id]; cbn [apply_entry PartStack.entry_id].
@@ -456,7 +453,7 @@ Proof.
 Qed.
 
 Lemma iter_correct n : forall s, Inv s ->
-  Inv (iter_tick C cempty csize n s) /\ forall i, view (iter_tick C cempty csize n s) i = view s i.
+  Inv (iter_tick C csize n s) /\ forall i, view (iter_tick C csize n s) i = view s i.
 Proof.
   induction n as [|n IH]; intros s HI; cbn; [auto|].
   destruct (tick_correct s HI) as [HI' Hv]. destruct (IH _ HI') as [HI'' Hv'].
@@ -464,7 +461,7 @@ Proof.
 Qed.
 
 Lemma drain_correct s : Inv s ->
-  Inv (sdrain C cempty csize s) /\ forall i, view (sdrain C cempty csize s) i = view s i.
+  Inv (sdrain C csize s) /\ forall i, view (sdrain C csize s) i = view s i.
 Proof. apply iter_correct. Qed.
 
 (* --- GetPartIds lists exactly the ids that read as found --- *)
@@ -520,7 +517,7 @@ Definition puts_accepted (s : sstate) (ops : list (op C)) : Prop :=
 
 Definition rel (s : sstate) (m : amap C) : Prop := Inv s /\ forall id, view s id = lookup m id.
 
-Lemma accepts_step s o x : accepts (fst (step C cempty csize s o)) x <-> accepts s x.
+Lemma accepts_step s o x : accepts (fst (step C csize s o)) x <-> accepts s x.
 Proof.
   destruct o; cbn.
   - destruct (tx || cap_write C s); cbn; [apply accepts_put | tauto].
@@ -528,13 +525,13 @@ Proof.
     pose proof (accepts_get s id x) as H. destruct (get s id). exact H.
   - destruct (tx || cap_write C s); cbn; [apply accepts_del | tauto].
   - destruct tx; cbn; tauto.
-  - destruct (sbase C (sdrain C cempty csize s)). cbn. apply accepts_iter.
+  - destruct (sbase C (sdrain C csize s)). cbn. apply accepts_iter.
   - apply accepts_tick.
   - apply accepts_iter.
 Qed.
 
 Theorem stack_correct : forall ops s m, rel s m -> puts_accepted s ops ->
-  outs_ok m ops (run C cempty csize s ops).
+  outs_ok m ops (run C csize s ops).
 Proof.
   induction ops as [|o ops IH]; intros s m [HI Hv] HA; [exact I|].
   inversion HA as [|? ? Ho HA']; subst.
@@ -563,7 +560,7 @@ Proof.
       intros id. rewrite (ids_correct s HI), Hv. unfold lookup. destruct (PartStack.aget C id m); split; congruence.
     + split; [reflexivity|]. apply IH; [split; assumption | apply HA''; exact Hst].
   - destruct (drain_correct s HI) as [HI' Hv'].
-    destruct (sbase C (sdrain C cempty csize s)) as [b bm]. cbn [fst] in Hst. cbn [outs_ok].
+    destruct (sbase C (sdrain C csize s)) as [b bm]. cbn [fst] in Hst. cbn [outs_ok].
     apply IH; [|apply HA''; exact Hst]. split; [exact HI'|]. intros i. rewrite Hv'. apply Hv.
   - destruct (tick_correct s HI) as [HI' Hv']. cbn [fst] in Hst. cbn [outs_ok].
     apply IH; [|apply HA''; exact Hst]. split; [exact HI'|]. intros i. rewrite Hv'. apply Hv.
@@ -612,42 +609,21 @@ Fixpoint base_of (s : sstate) : base :=
   end.
 Definition lawful (s : sstate) : Prop := forall k, In k (codecs s) -> forall c, dec k (enc k c) = Some c.
 
-Lemma accepts_fs s : lawful s -> base_of s = BFs -> forall c, accepts s c.
+Lemma accepts_lawful s : lawful s -> forall c, accepts s c.
 Proof.
-  unfold lawful. induction s as [b m|k s IH|mx cm h s IH|q s IH]; cbn; intros HL HB c.
-  - subst. exact I.
+  unfold lawful. induction s as [b m|k s IH|mx cm h s IH|q s IH]; cbn; intros HL c.
+  - exact I.
   - split; [apply HL; auto|]. apply IH; auto.
   - apply IH; auto.
   - apply IH; auto.
 Qed.
 
-(* over a SQL base: the content is not empty, or some codec frames it, codecs never emitting
-   zero bytes (compression and tink always prepend a header) *)
-Lemma accepts_sql s : lawful s ->
-  (forall k, In k (codecs s) -> forall x, cempty (enc k x) = false) ->
-  forall c, cempty c = false \/ codecs s <> [] -> accepts s c.
+(* THE PROPERTY: every freshly built stack of lawful codecs behaves like a map on every history *)
+Theorem stack_correct_lawful s ops : lawful s -> fresh s -> outs_ok [] ops (run C csize s ops).
 Proof.
-  unfold lawful. induction s as [b m|k s IH|mx cm h s IH|q s IH]; cbn; intros HL HN c Hc.
-  - destruct b; [exact I|]. destruct Hc as [Hc|Hc]; [exact Hc | congruence].
-  - split; [apply HL; auto|]. apply IH; auto.
-  - apply IH; auto.
-  - apply IH; auto.
+  intros HL HF. apply stack_correct; [apply fresh_rel; exact HF|].
+  unfold puts_accepted. apply Forall_forall. intros o _. destruct o; auto. apply accepts_lawful. exact HL.
 Qed.
 
 End Refinement.
 
-(* ---------------------------------------------------------------- the refuted full statement *)
-(* every freshly built lawful stack behaves like a map on every history *)
-Definition stack_correct_full : Prop :=
-  forall (C : Type) (cempty : C -> bool) (csize : C -> N) (s : sstate C) (ops : list (op C)),
-    lawful C s -> fresh C s -> outs_ok C [] ops (run C cempty csize s ops).
-
-Definition is_nil_bytes (b : bytes) : bool := match b with [] => true | _ => false end.
-
-Lemma stack_correct_refuted : ~ stack_correct_full.
-Proof.
-  intros H.
-  specialize (H bytes is_nil_bytes lenN (SBase BSql []) [OPut 0 [] true; OGet 0 true 0]).
-  cbn in H. assert (HL : lawful bytes (SBase BSql [])) by (intros k []).
-  specialize (H HL eq_refl). destruct H as [H _]. discriminate.
-Qed.
